@@ -65,6 +65,7 @@ void h_clearSlot(void)
 #endif
     V_COVER(in_range(i) && pre.k >= 2 && pre.rank[i] != 1);
     V_COVER(in_range(i) && pre.k >= 1);
+    if(in_range(i) && pre.rank[i] == -1 && pre.k >= 1) V_KF("clearSlot-not-waiting-while-others-wait");
     C19_SPLIT1C(i, AutomationMgr_clearSlot(&M, I));
     end();
     struct lq_view want = lq_remove(&q0, i);
@@ -108,6 +109,7 @@ void h_handleMidi(void)
     V_COVER(!any_bound && ctl.kind != LQ_CTL_NONE && q0.len >= 2 && q0.q[0] > q0.q[1]);
     V_COVER(!any_bound && ctl.kind != LQ_CTL_NONE && q0.len == 0);
     V_COVER(ctl.kind == LQ_CTL_NONE && q0.len >= 1);
+    if(ctl.kind == LQ_CTL_NONE && q0.len >= 1) V_KF("handleMidi-incomplete-nrpn-while-waiting");
 
     AutomationMgr_handleMidi(&M, ch, cc, val);
     end();
